@@ -1051,9 +1051,14 @@ func (client *client) publishHandler(pub *packets.Publish) *codes.Error {
 				Message:          msg,
 				IterationOptions: opts,
 			}
+			origTopic := msg.Topic
 			err = srv.hooks.OnMsgArrived(context.Background(), client, req)
 			msg = req.Message
 			opts = req.IterationOptions
+			// the hook rewrote the topic and left the iteration options alone: match by the new topic
+			if msg != nil && msg.Topic != origTopic && opts.TopicName == origTopic {
+				opts.TopicName = msg.Topic
+			}
 		}
 		if msg != nil && err == nil {
 			topicMatched = client.deliverMessage(client.opts.ClientID, msg, opts)
